@@ -541,7 +541,7 @@ contract(
 
 def _super_decompose_filter(ex, st, self, args, kwargs, node):
     me = st.env["self"]
-    return ex.call_contract(CONTRACTS["ufo2ft.filters.decomposeComponents:DecomposeComponentsFilter.filter"], [me] + list(args), kwargs, st, node)
+    return ex.call_contract(CONTRACTS["ufo2ft.filters.decomposeComponents:DecomposeComponentsFilter.filter#c01"], [me] + list(args), kwargs, st, node)
 
 
 _super_decompose_filter.modifies = ["C01_Glyph.components", "C01_Glyph.log_drawn", "C01_Glyph.log_pens"]
